@@ -466,7 +466,34 @@ def rule_pushes_are_script_pushes(ctx: Ctx, rep: Report) -> None:
     rep.floor(rule, 2)
 
 
+def rule_key_read_one_way(ctx: Ctx, rep: Report) -> None:
+    """C12.key_read_one_way: `output_pubkey`, `input_script_sig` and `output_prvkey`
+    take the same internal key in the same spellings, and one function
+    (`_output_pubkey_and_internal_key`, `_sec_from_key` under it) reads them:
+    32 octets are a private key to all three. Each wrapper hands the caller's
+    key on as it came -- re-spelt in one of them (32 octets prefixed with 02),
+    the output key that wrapper answers is not the one the other two build
+    their control block and their tweaked private key for."""
+    from rules.sigcommon import _rebound_before
+    rule = "C12.key_read_one_way"
+    n = 0
+    for q, fi in sorted(ctx.prog.functions.items()):
+        if not q.startswith(T + ".") or fi.name.startswith("_"):
+            continue
+        params = fi.params()
+        for c in own_nodes(fi.node):
+            if isinstance(c, ast.Call) and call_name(c) == "_output_pubkey_and_internal_key" and c.args:
+                n += 1
+                x = c.args[0]
+                ok = isinstance(x, ast.Name) and x.id in params and not _rebound_before(fi, x.id, c)
+                rep.ob(rule, f"{fi.name}:key", ok, fi.where(c), f"`{norm(x)}` is handed on as the caller spelled it" if ok else
+                       f"`{fi.name}` re-spells its key before `_output_pubkey_and_internal_key` reads it (`{norm(x)}`): the sibling functions read the caller's spelling another way")
+    rep.floor(rule, 2)
+
+
 RULES = [
+    ("C12.key_read_one_way", rule_key_read_one_way),
+
     ("C12.scalar_validated_before_reduction", rule_scalar_validated_before_reduction),
     ("C12.pushes_are_script_pushes", rule_pushes_are_script_pushes),
 
